@@ -11,6 +11,8 @@ FLAVOURS = {
     # libc entry points reachable from the library are interposed at link time (C11, C15, C18)
     'asan-wrap': {'cc': 'gcc', 'cflags': SAN + ' -DNDEBUG', 'extra_src': ['pv_wrap.c'],
                   'ldextra': '-Wl,--wrap=malloc,--wrap=free,--wrap=calloc,--wrap=realloc,--wrap=time,--wrap=clock_gettime,--wrap=gettimeofday,--wrap=getrandom,--wrap=getentropy,--wrap=rand,--wrap=random,--wrap=open,--wrap=fopen,--wrap=clock'},
+    'asan-dbg-wrap': {'cc': 'gcc', 'cflags': SAN, 'extra_src': ['pv_wrap.c'],
+                  'ldextra': '-Wl,--wrap=malloc,--wrap=free,--wrap=calloc,--wrap=realloc,--wrap=time,--wrap=clock_gettime,--wrap=gettimeofday,--wrap=getrandom,--wrap=getentropy,--wrap=rand,--wrap=random,--wrap=open,--wrap=fopen,--wrap=clock'},
     'plain-wrap': {'cc': 'gcc', 'cflags': '-O2 -g -DNDEBUG', 'extra_src': ['pv_wrap.c'],
                   'ldextra': '-Wl,--wrap=malloc,--wrap=free,--wrap=calloc,--wrap=realloc,--wrap=time,--wrap=clock_gettime,--wrap=gettimeofday,--wrap=getrandom,--wrap=getentropy,--wrap=rand,--wrap=random,--wrap=open,--wrap=fopen,--wrap=clock'},
     'fuzz':     {'cc': 'clang', 'cflags': '-O1 -g -fno-omit-frame-pointer -fsanitize=fuzzer-no-link,address,undefined -fno-sanitize-recover=all -fno-sanitize=object-size',
@@ -230,3 +232,28 @@ PROPS['C14'] = {
 MANIFEST_TEXT['C14'] = {'technique': 'runtime monitoring: ASan+UBSan (NDEBUG and assertion-enabled builds) on grammar/boundary/raw inputs with exact-size and read-only-before-guard-page buffers, per-case watchdog, allocator ledger; coverage-guided libFuzzer (clang) on three entry points',
     'text': 'Arbitrary strings (all grammar classes, lengths around POLYSEED_STR_SIZE, 2x, 64 KiB, invalid UTF-8, raw bytes) are fed as phrases to both decoders and as passwords to crypt, and mutated/random buffers to load, on exact-size heap blocks and on a read-only page ending at an inaccessible guard page; any sanitizer report, signal, assertion abort or watchdog expiry is a violation, as is a status outside the documented set, a modified input, a block left allocated by a failed call or a non-canonical seed. libFuzzer explores the same three entry points coverage-guided, seeded with grammar output.',
     'note': _TB + 'A clean sanitizer run is not memory safety (intra-object and non-adjacent overflows can escape); the watchdog is generous (120 s per case) and a firing is re-confirmed in a fresh process before it counts.'}
+
+_LSAN = 'abort_on_error=1:halt_on_error=1:detect_leaks=1:detect_stack_use_after_return=0:handle_abort=0:handle_segv=0:handle_sigbus=0:handle_sigfpe=0:handle_sigill=0:allocator_may_return_null=1'
+PROPS['C15'] = {
+    'level': 'fault_enumeration',
+    'exhaustive_possible': True,
+    'runs': [{'name': 'asan-wrap', 'flavour': 'asan-wrap', 'driver': 'drv_c15', 'env': {'ASAN_OPTIONS': _LSAN}}],
+    'require': {'matrix.cases_ok': 500, 'faults.injected': 500, 'masks.enumerated': 2000, 'libc.seed_freed_once': 500, 'free_null.silent': 500,
+                'matrix.cell.decode.UNSUPPORTED.fault-1(hit)': 10, 'matrix.cell.decode_explicit.UNSUPPORTED.fault-1(hit)': 10, 'matrix.cell.load.UNSUPPORTED.fault-1(hit)': 10,
+                'matrix.cell.decode.CHECKSUM.fault-1(not reached)': 10, 'matrix.cell.decode.MULT_LANG.fault-1(not reached)': 5, 'matrix.cell.load.FORMAT.fault-1(hit)': 10},
+}
+MANIFEST_TEXT['C15'] = {'technique': 'runtime monitoring with fault injection: allocator ledger + programmable allocation failures (k-th request / bit masks), libc path via link-time interposition, ASan + LeakSanitizer',
+    'text': 'Fault enumeration: every entry point x outcome class x failing-request index (none, 1st ... one past the observed count) is executed on generated inputs; all 2^n fault masks are applied to sampled sequences of up to 8 constructor calls mixed with free/crypt/encode. After every call the ledger must balance (allocated = freed + held by returned seeds), no foreign/double/NULL free may reach the injected free, a failed request must yield ERR_MEMORY and no seed, an armed but unused failure must not change the result, the next call must behave normally, and seeds built in junk-filled memory must equal the model. With alloc/free NULL the libc calls made inside the library are counted and LeakSanitizer/ASan watch the libc path.',
+    'note': _TB + 'Fault sites are the allocation requests the library makes (one per constructor on this tree); the enumeration adapts if more appear. Inputs per cell are sampled.'}
+
+PROPS['C18'] = {
+    'level': 'exploration',
+    'runs': [{'name': 'asan-wrap', 'flavour': 'asan-wrap', 'driver': 'drv_c18'},
+             {'name': 'asan-dbg-wrap', 'flavour': 'asan-dbg-wrap', 'driver': 'drv_c18', 'env': {'PV_SCALE': '10'}, 'shards': 4}],
+    'require': {'rand.creates_ok': 50000, 'rand.single_bit_patterns_ok': 152, 'inject.histories_ok': 1500, 'inject.struct_unmapped_afterwards': 500,
+                'inject.libc_fallback_observed.alloc/malloc': 300, 'inject.libc_fallback_observed.free': 300, 'inject.libc_fallback_observed.time': 300,
+                'inject.last_table.time0.alloc0.free0': 100, 'inject.last_table.time1.alloc1.free1': 100},
+}
+MANIFEST_TEXT['C18'] = {'technique': 'runtime monitoring: tagged event logs of two distinguishable stub sets + link-time interposed libc counters scoped to library calls (ASan/UBSan; NDEBUG and assertion-enabled builds)',
+    'text': 'polyseed_create is run with scripted random outputs (all 152 single-bit patterns, all-00, all-FF, random) and clocks: exactly 19 bytes must be requested, the stored secret must equal them bit for bit (top two bits dropped), the birthday must come from the injected clock, and no interposed libc entropy/time function may be reached. All 8 NULL/non-NULL combinations of the optional entries are injected after histories of 1-4 earlier tables (every ordered pair of combinations as the last two), the caller\'s struct is overwritten or unmapped after polyseed_inject returns, and every API function is called: all events must carry the last table\'s tag, and libc malloc/free/time must be used inside the library exactly when the entry is NULL.',
+    'note': _TB + 'Only libc entry points listed in the --wrap set are observed (malloc, free, calloc, realloc, time, clock_gettime, gettimeofday, getrandom, getentropy, rand, random, open, fopen, clock).'}
